@@ -2,6 +2,10 @@ pub mod common;
 pub mod c01;
 pub mod c02;
 pub mod c03;
+pub mod c06;
+pub mod c07;
+pub mod c09;
+pub mod c10;
 
 use crate::report::Run;
 
@@ -10,6 +14,10 @@ pub fn dispatch(run: &Run) -> bool {
         "C01" => c01::run(run),
         "C02" => c02::run(run),
         "C03" => c03::run(run),
+        "C06" => c06::run(run),
+        "C07" => c07::run(run),
+        "C09" => c09::run(run),
+        "C10" => c10::run(run),
         _ => return false,
     }
     true
